@@ -248,6 +248,8 @@ impl RowSetIterator {
                 }
                 if end_row_id == 0 {
                     self.end = true;
+                    #[cfg(risinglight_verif)]
+                    crate::verif::probe("range-scan.early-end");
                 }
             }
 
